@@ -560,4 +560,27 @@ theorem start_loop_complete (st : St) (sched : List Act) :
   rw [hm, List.append_nil] at this
   exact this
 
+theorem run_no_stray (cfg : Cfg) (fuel : Nat) (sched : List Act) (pick : List Name → Nat) :
+    PollThreadsStopped (run cfg fuel sched pick).log := by
+  intro e he
+  rw [(run_log cfg fuel sched pick).2] at he
+  have hinit : ∀ e ∈ (startup cfg fuel).log, isStray e = false := by
+    intro e he
+    rcases startup_shape cfg fuel e he with h | rfl
+    · cases e <;> simp [isInitEv] at h <;> rfl
+    · rfl
+  split at he
+  · rcases List.mem_append.mp he with he | he
+    · exact hinit e he
+    · simp only [laterPart, shutdownLog, List.mem_append, List.mem_singleton, List.mem_map] at he
+      rcases he with (he | rfl) | ((⟨m, _, rfl⟩ | ⟨m, _, rfl⟩) | ⟨m, _, rfl⟩)
+      · rcases wait_shape _ sched e he with h | h | rfl | rfl | ⟨t, rfl⟩
+        · cases e <;> simp [isMainEv] at h <;> rfl
+        · cases e <;> simp [isProEv] at h <;> rfl
+        · rfl
+        · rfl
+        · rfl
+      all_goals rfl
+  · exact hinit e he
+
 end Frappy.Proofs.LifecycleWait
